@@ -125,6 +125,15 @@ fn check_pair(src: &Sources, base: &Value, via_cli: bool, st: &mut Stats) -> Vec
         }
     };
     st.inc("merges_compared");
+    // the merged document must still be closed and structurally valid (C03's validator)
+    for pr in crate::oracle::validate::validate(&o) {
+        if pr.class != "duplicate-synthesised-operationId" {
+            return vec![Violation::new(
+                "the document merged with a base is not closed / structurally valid",
+                json!({"signature": format!("C14 merged-document {}", pr.class), "detail": pr.detail}),
+            )];
+        }
+    }
     let mut diffs = compare_merge(&o, &model, &o0, "model");
     if verbatim {
         diffs.extend(compare_merge(&o, base, &o0, "raw"));
